@@ -25,6 +25,9 @@ demo_files = []
 for d in demos:
     text = open(f'{src}/{d}').read().replace(f'{ROOT}/{id}/target', '${TMPDIR:-/tmp}').replace(f'{ROOT}/{id}', '${N2_WORKTREE:-/tmp/sv/wt}')
     open(f'{out}/{d}', 'w').write(text); os.chmod(f'{out}/{d}', 0o755); demo_files.append(d)
+for f in os.listdir(src):
+    if not f.startswith(('change', 'demo', 'notes')) and os.path.isfile(f'{src}/{f}'):
+        shutil.copy(f'{src}/{f}', f'{out}/{f}')   # helpers the demos import
 notes = open(f'{src}/notes.md').read() if os.path.exists(f'{src}/notes.md') else ''
 ran = []
 def build():
@@ -44,6 +47,15 @@ def run_demo():
         r = sh(f'cd {wt} && cargo test --offline --test {d[:-3]} 2>&1 | tail -15', env=env)
         os.remove(f'{wt}/tests/{d}')
         ok = 'test result: ok' in r.stdout
+        return (0 if ok else 1), r.stdout[-600:]
+    if d.endswith('.diff'):
+        # a unit test added to the tree: apply it, run the tests it names, take it out again
+        names = re.findall(r'^\+\s*fn (seeded_\w+)', open(f'{out}/{d}').read(), re.M)
+        a = sh(f'cd {wt} && git apply {out}/{d}')
+        if a.returncode != 0: return 99, 'demo diff does not apply: ' + a.stderr[-200:]
+        r = sh(f'cd {wt} && cargo test --offline {" ".join(names[:1])} 2>&1 | tail -25', env=env)
+        sh(f'cd {wt} && git apply -R {out}/{d}')
+        ok = 'FAILED' not in r.stdout and re.search(r'test result: ok. [1-9]', r.stdout)
         return (0 if ok else 1), r.stdout[-600:]
     return 99, 'unknown demo kind'
 ok, log = build(); assert ok, log
